@@ -234,7 +234,13 @@ package allocator
 //@   ensures [nonneg] result0 >= 0 && result1 >= 0 && result2 >= 0
 //@   loop 1 invariant total >= 0 && ipv4 >= 0 && ipv6 >= 0
 //@   modifies fresh *ipaddr.Prefix, fresh *ipaddr.Cursor, fresh *ipaddr.Position, fresh []ipaddr.Prefix, gint("cursor.pos")
+// NoZeroAt: none of the three per-pool in-use maps keeps an entry with count 0 for address x ("len() is an accurate
+// count of the addresses in use", which is what updatePoolStats reports as assigned).
+//@ pred NoZeroAt(a *Allocator, pool string, x string) := ((x in a.poolIPsInUse[pool]) ==> a.poolIPsInUse[pool][x] != 0)
+//@     && ((x in a.poolIPV4InUse[pool]) ==> a.poolIPV4InUse[pool][x] != 0) && ((x in a.poolIPV6InUse[pool]) ==> a.poolIPV6InUse[pool][x] != 0)
 //@ func (*Allocator).Unassign
+//@   ensures [noZeroEntry] old(a.allocated[svc]) != nil ==> (let al0 := old(a.allocated[svc]) in forall k int :: 0 <= k && k < len(al0.ips) ==> NoZeroAt(a, al0.pool, net.ipstr(al0.ips[k])))
+//@   loop 1 invariant forall k int :: 0 <= k && k < iter ==> NoZeroAt(a, al.pool, net.ipstr(al.ips[k]))
 //@   requires Inv(a) && a.countersChangedCallback != nil && PoolsOK(a.pools.ByName)
 //@   modifies map[string]*alloc, map[Port]string, map[string]bool, map[string]int, map[string]PoolCounters, fresh *ipaddr.Prefix, fresh *ipaddr.Cursor, fresh *ipaddr.Position, fresh []ipaddr.Prefix, gint("cursor.pos"), fresh []string, fresh []interface{}, $held
 //@   requires [unlocked] lockstate(a.countersMutex) == 0
